@@ -1,4 +1,4 @@
-(* DOT tracker with the repaired ageing (lasting time decreases in both branches of step). *)
+(* DOT tracker with the repaired ageing (lasting time decreases in both branches of step) and name-ordered ticks. *)
 From Coq Require Import ZArith List Lia Bool.
 Import ListNotations.
 Open Scope Z_scope.
@@ -11,12 +11,21 @@ Definition age (t : Z) (d : dot) : dot := let '(n, dm, l) := d in (n, dm, l - t)
 Definition alive (t : Z) (d : dot) : bool := let '(_, _, l) := d in 0 <=? l - t.
 Definition name_dmg (d : dot) : ev := let '(n, dm, _) := d in (n, dm).
 
+(* `sorted(new_current.items())`: the ticks of one period are reported in the order of the names (unique keys of the dict), not in
+   the dict's insertion order - a checkpoint that travelled as JSON may come back with its members in another order *)
+Fixpoint ins (d : dot) (l : list dot) : list dot :=
+  match l with
+  | [] => [d]
+  | x :: r => if (fst (fst d) <=? fst (fst x))%N then d :: l else x :: ins d r
+  end.
+Definition sortn (l : list dot) : list dot := fold_right ins [] l.
+
 (* one step: returns new state, time left, tick events *)
 Definition step (s : D) (t : Z) : D * Z * list ev :=
   if t <? pl s then (mkD (map (age t) (cur s)) (pl s - t) (period s), 0, [])
   else let lapse := pl s in
        let nc := map (age lapse) (filter (alive lapse) (cur s)) in
-       (mkD nc (period s) (period s), t - lapse, map name_dmg nc).
+       (mkD nc (period s) (period s), t - lapse, map name_dmg (sortn nc)).
 
 Fixpoint run (fuel : nat) (s : D) (t : Z) : D * list ev :=
   match fuel with
